@@ -268,8 +268,7 @@ def check_input(spec, limit, nd, query, full_tree, sh=None, dev=2, cap=20000, ho
         case["configured"] = how
     out = []
     if expect_ok:
-        v = rt.classify(query)
-        det = tuple(loc for loc, _ in ev.evaluate(v.ast, doc))
+        det = _reference(query, doc)
     if not nd:
         r = one_run(cq, doc)
         if sh is not None:
@@ -297,6 +296,17 @@ def check_input(spec, limit, nd, query, full_tree, sh=None, dev=2, cap=20000, ho
             if ctl.executions >= cap:
                 sh.bump("nd_inputs_capped_not_exhaustive")
     return out
+
+
+def _reference(query, doc):
+    """the reference result, computed under a generous interpreter limit of its own (the model
+    recurses too; the limit in force while the implementation runs stays 1000)"""
+    old = sys.getrecursionlimit()
+    sys.setrecursionlimit(max(old, 50000))
+    try:
+        return tuple(loc for loc, _ in ev.evaluate(rt.classify(query).ast, doc))
+    finally:
+        sys.setrecursionlimit(old)
 
 
 def judge(case, r, expect_ok, det, nd, nest):
@@ -338,7 +348,7 @@ def check_case(case):
             expect_ok = nest is not None and nest <= limit
             det = None
             if expect_ok:
-                det = tuple(loc for loc, _ in ev.evaluate(rt.classify(query).ast, doc))
+                det = _reference(query, doc)
             with choice.controlled(modules()) as ctl:
                 ctl.chooser.start(case["choices"])
                 try:
@@ -450,7 +460,7 @@ def shards(tier):
     step = 3
     for lo in range(0, len(shapes), step):
         out.append({"part": "skeleton", "lo": lo, "hi": min(lo + step, len(shapes)), "nmax": nmax, "tier": tier})
-    for limit in (1, 2, 3, 4, 5, 100, 200):
+    for limit in (1, 2, 3, 4, 5, 100, 200, 450, 700):
         for dn in (-1, 0, 1, 2):
             for link in ("list", "dict", "alt"):
                 out.append({"part": "chain", "limit": limit, "dn": dn, "link": link, "tier": tier})
@@ -483,8 +493,10 @@ def run_shard(desc):
         def do(spec, limit, nd, query, near):
             if near:
                 sh.nontrivial += 1
+            big = limit > 200  # the nondeterministic walk is iterative: one default-choice execution there
             for v in check_input(spec, limit, nd, query, full_tree=(limit <= full_upto), sh=sh,
-                                 dev=(1 if tier == "quick" else 2), cap=(3000 if tier == "quick" else 20000)):
+                                 dev=(0 if big else 1 if tier == "quick" else 2),
+                                 cap=(3 if big else 3000 if tier == "quick" else 20000)):
                 sh.violation(v)
             sh.sample({"doc": spec, "limit": limit, "nondeterministic": nd, "query": query}, limit=1)
 
@@ -573,12 +585,14 @@ def run_shard(desc):
             for n in (limit + desc["dn"],):
                 if n < 1:
                     continue
+                big = limit > 200  # every run costs O(depth^2) there: fewer shapes
                 for link in (desc["link"],):
-                    for bottom in ("scalar", "empty", "str", "null"):
-                        for where in ("alone", "first", "middle", "last"):
+                    for bottom in (("scalar", "empty") if big else ("scalar", "empty", "str", "null")):
+                        for where in (("alone", "last") if big else ("alone", "first", "middle", "last")):
                             spec = {"kind": "chain", "n": n, "link": link, "bottom": bottom, "where": where}
                             for nd in (False, True):
-                                for q in ("$..*", "$..a", "$[*]..[0]" if where != "alone" else "$..[0]"):
+                                for q in (("$..*", "$..a") if big else
+                                          ("$..*", "$..a", "$[*]..[0]" if where != "alone" else "$..[0]")):
                                     if q.startswith("$[*]"):
                                         # the descent starts one level down: nesting seen by the segment is n
                                         spec2 = dict(spec)
@@ -608,7 +622,7 @@ def do_sub(sh, spec, limit, nd, query, full_upto):
     sh.nontrivial += 1
     det = None
     if expect_ok:
-        det = tuple(loc for loc, _ in ev.evaluate(rt.classify(query).ast, doc))
+        det = _reference(query, doc)
     if not nd:
         r = one_run(cq, doc)
         sh.states += 1
